@@ -88,10 +88,13 @@ fn dbg<T: Debug>(v: &T, n: usize) -> String {
     prefix(&format!("{:?}", v), n)
 }
 
-const CODECS: [&str; 3] = ["json-text", "json-value", "cbor"];
+/// "json-text" / "cbor" hand the visitors data borrowed from the input (`&'de str`, `&'de [u8]`), "json-value" owned
+/// strings, and the two reader codecs transient data (`visit_str` / `visit_bytes` on a scratch buffer): a visitor or
+/// field that insists on borrowed data passes the first kind only.
+const CODECS: [&str; 5] = ["json-text", "json-value", "cbor", "json-reader", "cbor-reader"];
 
-/// The three codec round trips of one value; every call into a (de)serializer is guarded.
-/// Returns the list of failed codecs (empty = all three round-trip).
+/// The five codec round trips of one value; every call into a (de)serializer is guarded.
+/// Returns the list of failed codecs (empty = all five round-trip).
 fn rt_core<T>(
     name: &'static str,
     v: &T,
@@ -128,6 +131,32 @@ where
                         });
                     }
                 }
+            }
+            // 1b. the same text through a reader (transient strings); serde_json's reader path is several times slower
+            // than from_str, and a long document exercises no visitor a short one does not: texts up to 16 KiB only
+            if s.len() > 16 * 1024 {
+                ctx.class("json-reader:skipped:document>16KiB");
+            } else {
+            ctx.eval();
+            ctx.class(&format!("{}:{}", name, CODECS[3]));
+            match guard::guard("serde_json::from_reader", s.len(), || serde_json::from_reader::<_, T>(s.as_bytes()))? {
+                Err(e) => fails.push(RtFail {
+                    codec: CODECS[3],
+                    stage: Stage::Deserialize,
+                    err: e.to_string(),
+                    detail: format!("json={}", prefix(&s, 1100)),
+                }),
+                Ok(b) => {
+                    if !eq(&b, v) {
+                        fails.push(RtFail {
+                            codec: CODECS[3],
+                            stage: Stage::NotEqual,
+                            err: String::new(),
+                            detail: format!("json={}\n before={}\n after ={}", prefix(&s, 500), dbg(v, 500), dbg(&b, 500)),
+                        });
+                    }
+                }
+            }
             }
             json_text = Some(s);
         }
@@ -166,28 +195,61 @@ where
     ctx.class(&format!("{}:{}", name, CODECS[2]));
     match guard::guard("serde_cbor::to_vec", 0, || serde_cbor::to_vec(v))? {
         Err(e) => fails.push(RtFail { codec: CODECS[2], stage: Stage::Serialize, err: e.to_string(), detail: dbg(v, 900) }),
-        Ok(bytes) => match guard::guard("serde_cbor::from_slice", bytes.len(), || serde_cbor::from_slice::<T>(&bytes))? {
-            Err(e) => fails.push(RtFail {
-                codec: CODECS[2],
-                stage: Stage::Deserialize,
-                err: e.to_string(),
-                detail: format!("cbor={}\n value={}", prefix(&hex(&bytes), 800), dbg(v, 400)),
-            }),
-            Ok(b) => {
-                if !eq(&b, v) {
-                    fails.push(RtFail {
-                        codec: CODECS[2],
-                        stage: Stage::NotEqual,
-                        err: String::new(),
-                        detail: format!("cbor={}\n before={}\n after ={}", prefix(&hex(&bytes), 400), dbg(v, 500), dbg(&b, 500)),
-                    });
+        Ok(bytes) => {
+            match guard::guard("serde_cbor::from_slice", bytes.len(), || serde_cbor::from_slice::<T>(&bytes))? {
+                Err(e) => fails.push(RtFail {
+                    codec: CODECS[2],
+                    stage: Stage::Deserialize,
+                    err: e.to_string(),
+                    detail: format!("cbor={}\n value={}", prefix(&hex(&bytes), 800), dbg(v, 400)),
+                }),
+                Ok(b) => {
+                    if !eq(&b, v) {
+                        fails.push(RtFail {
+                            codec: CODECS[2],
+                            stage: Stage::NotEqual,
+                            err: String::new(),
+                            detail: format!("cbor={}\n before={}\n after ={}", prefix(&hex(&bytes), 400), dbg(v, 500), dbg(&b, 500)),
+                        });
+                    }
                 }
             }
-        },
+            // 3b. the same bytes through a reader (transient byte strings and text). serde_cbor 0.8.2's reader loses its
+            // place in the stream on a byte / text string longer than its 16 KiB chunk (a defect of that crate, not of the
+            // library under test), so documents that could hold one are left to from_slice.
+            if bytes.len() > 16 * 1024 {
+                ctx.class("cbor-reader:skipped:document>16KiB");
+                return finish(name, nontrivial, &json_text, fails, ctx);
+            }
+            ctx.eval();
+            ctx.class(&format!("{}:{}", name, CODECS[4]));
+            match guard::guard("serde_cbor::from_reader", bytes.len(), || serde_cbor::from_reader::<T, _>(&bytes[..]))? {
+                Err(e) => fails.push(RtFail {
+                    codec: CODECS[4],
+                    stage: Stage::Deserialize,
+                    err: e.to_string(),
+                    detail: format!("cbor={}\n value={}", prefix(&hex(&bytes), 800), dbg(v, 400)),
+                }),
+                Ok(b) => {
+                    if !eq(&b, v) {
+                        fails.push(RtFail {
+                            codec: CODECS[4],
+                            stage: Stage::NotEqual,
+                            err: String::new(),
+                            detail: format!("cbor={}\n before={}\n after ={}", prefix(&hex(&bytes), 400), dbg(v, 500), dbg(&b, 500)),
+                        });
+                    }
+                }
+            }
+        }
     }
 
+    finish(name, nontrivial, &json_text, fails, ctx)
+}
+
+fn finish(name: &'static str, nontrivial: bool, json_text: &Option<String>, fails: Vec<RtFail>, ctx: &mut Ctx) -> Result<Vec<RtFail>, Failure> {
     if nontrivial {
-        if let Some(s) = &json_text {
+        if let Some(s) = json_text {
             ctx.nontrivial(&(name, s));
             if ctx.wants_sample(name) {
                 ctx.sample(name, || json!({"type": name, "json_prefix": prefix(s, 100)}));
@@ -220,6 +282,24 @@ where
     T: Serialize + DeserializeOwned + PartialEq + Debug,
 {
     serde_rt_nt(name, v, true, ctx)
+}
+
+/// Round trip of a helper type the statement does not list, in a state that cannot occur inside a listed type
+/// (an empty / incomplete `TaprootBuilder`, a `NodeInfo` or `LeafInfo` or `raw::Pair` on its own ...): recorded in the
+/// histogram, never a verdict - a library that stops serializing such a value on its own still satisfies the statement.
+fn diag_rt<T>(name: &'static str, v: &T, eq: &dyn Fn(&T, &T) -> bool, ctx: &mut Ctx) -> R
+where
+    T: Serialize + DeserializeOwned + Debug,
+{
+    match rt_core(name, v, eq, false, ctx) {
+        Ok(fails) => {
+            for f in fails {
+                ctx.class(&format!("diagnostic-only:{}:{}:{:?}", name, f.codec, f.stage));
+            }
+        }
+        Err(_) => ctx.class(&format!("diagnostic-only:{}:guard-failure", name)),
+    }
+    Ok(())
 }
 
 /// `T::from_str(&v.to_string()) == v`
@@ -309,6 +389,19 @@ fn gen_vbf(t: &mut Tape, salt: u32) -> ValueBlindingFactor {
         _ => ct::vbf_from(t, salt),
     }
 }
+
+/// every value of the type: `Reserved` prints as "SIGHASH_RESERVED" and parses back (it is only `SchnorrSig`, whose
+/// codec cannot carry it, that keeps to the seven values of `gp::SCHNORR_TYPES`)
+const SCHNORR_ALL: [SchnorrSighashType; 8] = [
+    SchnorrSighashType::Default,
+    SchnorrSighashType::All,
+    SchnorrSighashType::None,
+    SchnorrSighashType::Single,
+    SchnorrSighashType::AllPlusAnyoneCanPay,
+    SchnorrSighashType::NonePlusAnyoneCanPay,
+    SchnorrSighashType::SinglePlusAnyoneCanPay,
+    SchnorrSighashType::Reserved,
+];
 
 const ECDSA_TYPES: [EcdsaSighashType; 6] = [
     EcdsaSighashType::All,
@@ -555,7 +648,10 @@ fn hashes_and_small(t: &mut Tape, ctx: &mut Ctx) -> R {
     serde_rt_nt("Sequence", &sq, sq != Sequence::MAX, ctx)?;
     let e = t.choose(&ECDSA_TYPES);
     serde_rt_nt("EcdsaSighashType", &e, e != EcdsaSighashType::All, ctx)?;
-    let s = t.choose(&gp::SCHNORR_TYPES);
+    let s = t.choose(&SCHNORR_ALL);
+    if s == SchnorrSighashType::Reserved {
+        ctx.class("schnorr-sighash:reserved");
+    }
     serde_rt_nt("SchnorrSighashType", &s, s != SchnorrSighashType::Default, ctx)?;
     let p = gen_psbt_sighash(t);
     ctx.class(if p.schnorr_hash_ty().is_some() { "psbt-sighash:named" } else { "psbt-sighash:raw" });
@@ -578,14 +674,19 @@ fn hashes_and_small(t: &mut Tape, ctx: &mut Ctx) -> R {
     } else {
         "builder:incomplete"
     });
-    serde_rt_nt("TaprootBuilder", &b, b != TaprootBuilder::new(), ctx)?;
+    if b.is_complete() {
+        // the state in which a builder occurs inside a listed type (pset::Output::tap_tree)
+        serde_rt_nt("TaprootBuilder", &b, true, ctx)?;
+    } else {
+        diag_rt("TaprootBuilder(empty or incomplete)", &b, &|x: &TaprootBuilder, y: &TaprootBuilder| x == y, ctx)?;
+    }
     if let Ok(tt) = TapTree::from_inner(b) {
         let leaves = gp::tap_tree_leaves(&tt).len();
         let tt = Some(tt);
         serde_rt_with("pset::TapTree", &tt, &|a, b| tap_tree_eq(a, b), leaves >= 2, ctx)?;
     }
     let leaf = LeafInfo::new(gen::gen_script(t, false), gp::gen_leaf_version(t));
-    serde_rt_nt("taproot::LeafInfo", &leaf, true, ctx)?;
+    diag_rt("taproot::LeafInfo", &leaf, &|x: &LeafInfo, y: &LeafInfo| x == y, ctx)?;
     let node = {
         let a = NodeInfo::new_leaf_with_ver(gen::gen_script(t, false), gp::gen_leaf_version(t));
         match t.below(3) {
@@ -601,7 +702,7 @@ fn hashes_and_small(t: &mut Tape, ctx: &mut Ctx) -> R {
             }
         }
     };
-    serde_rt_nt("taproot::NodeInfo", &node, true, ctx)?;
+    diag_rt("taproot::NodeInfo", &node, &|x: &NodeInfo, y: &NodeInfo| x == y, ctx)?;
     let tw = gen::gen_tweak(t);
     serde_rt_nt("Tweak(issuance nonce)", &tw, true, ctx)?;
     Ok(())
@@ -732,13 +833,13 @@ fn is_dup_version(f: &RtFail) -> bool {
 }
 fn is_parity_json(f: &RtFail) -> bool {
     f.stage == Stage::Deserialize
-        && (f.codec == CODECS[0] || f.codec == CODECS[1])
+        && (f.codec == CODECS[0] || f.codec == CODECS[1] || f.codec == CODECS[3])
         && f.err.contains("invalid type: integer")
         && f.err.contains("expected 8-bit integer (byte) with value 0 or 1")
 }
 
 fn is_borrowed_str(f: &RtFail) -> bool {
-    f.stage == Stage::Deserialize && f.codec == CODECS[1] && f.err.contains("invalid type: string") && f.err.contains("expected a borrowed string")
+    f.stage == Stage::Deserialize && (f.codec == CODECS[1] || f.codec == CODECS[3] || f.codec == CODECS[4]) && f.err.contains("invalid type: string") && f.err.contains("expected a borrowed string")
 }
 
 /// every failed codec must carry exactly the signature of a listed finding the value can run into
@@ -801,7 +902,8 @@ fn pset_parts(t: &mut Tape, ctx: &mut Ctx) -> R {
                 scalars: g.scalars.clone(),
                 elements_tx_modifiable_flag: g.elements_tx_modifiable_flag,
             };
-            serde_rt_nt("pset::Global field types (tx_data, xpub, scalars)", &flat, nt, ctx)?;
+            let _ = nt;
+            diag_rt("pset::Global field types (tx_data, xpub, scalars)", &flat, &|x: &GlobalPieces, y: &GlobalPieces| x == y, ctx)?;
             let fails = rt_core("pset::Global", &g, &|a: &Global, b: &Global| a == b, nt, ctx)?;
             settle("pset::Global", fails, Allow { dup_version: true, ..Allow::default() }, ctx)
         }
@@ -814,7 +916,7 @@ fn pset_parts(t: &mut Tape, ctx: &mut Ctx) -> R {
             serde_rt_nt("pset::raw::ProprietaryKey", &pk, !pk.prefix.is_empty() || !pk.key.is_empty(), ctx)?;
             let l = t.below(40);
             let pair = RawPair { key: k, value: t.bytes(l) };
-            serde_rt_nt("pset::raw::Pair", &pair, !pair.value.is_empty(), ctx)
+            diag_rt("pset::raw::Pair", &pair, &|x: &RawPair, y: &RawPair| x == y, ctx)
         }
         _ => {
             let max = if t.chance(40) { 24 } else { 6 };
@@ -909,7 +1011,10 @@ fn display_fromstr(t: &mut Tape, ctx: &mut Ctx) -> R {
     str_rt("Sequence", &sq, sq != Sequence::MAX, ctx)?;
     let e = t.choose(&ECDSA_TYPES);
     str_rt("EcdsaSighashType", &e, e != EcdsaSighashType::All, ctx)?;
-    let s = t.choose(&gp::SCHNORR_TYPES);
+    let s = t.choose(&SCHNORR_ALL);
+    if s == SchnorrSighashType::Reserved {
+        ctx.class("schnorr-sighash:reserved");
+    }
     str_rt("SchnorrSighashType", &s, s != SchnorrSighashType::Default, ctx)?;
     let p = gen_psbt_sighash(t);
     ctx.class(if p.schnorr_hash_ty().is_some() { "psbt-sighash:named" } else { "psbt-sighash:raw" });
@@ -956,26 +1061,30 @@ pub fn property() -> Property {
     Property {
         id: "C20",
         rule: "Every value comes from the shared tape generators (C01 / C07 variety). serde sub-checks: for each value v of type T \
-               three oracle evaluations: serde_json::from_str(to_string(v)) == v, serde_json::from_value(to_value(v)) == v \
-               (human-readable representation) and serde_cbor::from_slice(to_vec(v)) == v (compact representation); an Err \
-               in either direction is a violation; TapTree / pset::Output / PSET are additionally compared by builder and \
+               five oracle evaluations: serde_json::from_str(to_string(v)) == v, serde_json::from_reader(the same text) == v, \
+               serde_json::from_value(to_value(v)) == v (human-readable representation), serde_cbor::from_slice(to_vec(v)) == v \
+               and serde_cbor::from_reader(the same bytes) == v (compact representation) - borrowed, owned and transient data \
+               for the visitors; an Err in either direction is a violation; TapTree / pset::Output / PSET are additionally compared by builder and \
                leaf list (their PartialEq sees the root hash only). tx_family: Transaction, TxIn, TxOut, TxInWitness, \
                TxOutWitness, OutPoint, AssetIssuance. block_family: Block, BlockHeader (proof and dynafed), BlockExtData, \
                dynafed::Params (Null / Compact / Full). confidential: Asset, Value, Nonce (3 variants each, explicit values up \
                to u64::MAX), Asset/ValueBlindingFactor (zero, small, random), TxOutSecrets. hashes_and_small: 15 hash \
                newtypes / midstate wrappers, LockTime, Height, Time, Sequence, Ecdsa/Schnorr/Psbt sighash types (raw u32 \
-               values included), SchnorrSig, LeafVersion, ControlBlock, TaprootMerkleBranch, LeafInfo, NodeInfo, TaprootBuilder (empty, \
-               incomplete, hidden nodes, complete), TapTree, Tweak. addresses_scripts: Address (p2pkh, p2sh, witness v0..16, \
+               values included; SchnorrSighashType including Reserved), SchnorrSig, LeafVersion, ControlBlock, TaprootMerkleBranch, \
+               complete TaprootBuilder (with and without hidden nodes), TapTree, Tweak; diagnostics only, never a verdict (helper \
+               types in states that occur in no listed type): empty / incomplete TaprootBuilder, LeafInfo, NodeInfo, raw::Pair, the \
+               field types of Global in a plain struct. addresses_scripts: Address (p2pkh, p2sh, witness v0..16, \
                blinded or not, 3 networks; serde and Display/FromStr), Script. pset_parts: pset::Input and pset::Output with \
-               every field family at densities 40..256/256, Global, GlobalTxData and the other field types of Global on their own, raw::Key / \
-               ProprietaryKey / Pair, TapTree up to 24 leaves. pset_full: whole PSETs (0..3 inputs / outputs) through serde \
+               every field family at densities 40..256/256, Global, GlobalTxData, raw::Key / ProprietaryKey (as they occur in the \
+               unknown / proprietary maps), TapTree up to 24 leaves. pset_full: whole PSETs (0..3 inputs / outputs) through serde \
                and base64 text. display_fromstr: T::from_str(v.to_string()) == v for the hash newtypes, OutPoint, blinding \
-               factors, LockTime / Height / Time, Sequence, the three sighash types, Address. Non-trivial: the value is not \
+               factors, LockTime / Height / Time, Sequence, the three sighash types (all 8 values of SchnorrSighashType), Address. Non-trivial: the value is not \
                the type's default / null / zero value and, for composite types, has >= 1 confidential, optional or map \
                field populated (tx: >= 1 structural feature; PSET part: >= 1 field family); distinct by (type, JSON text).",
         assumptions: &[
             "serde_json stands for human-readable self-describing formats and serde_cbor 0.8 for binary self-describing formats",
-            "SchnorrSighashType::Reserved is a placeholder outside the domain",
+            "SchnorrSig carries the seven assignable sighash types only (its byte codec cannot carry Reserved); SchnorrSighashType itself is exercised with all eight values",
+            "helper types that the statement does not list are judged only in the states in which they occur inside a listed type",
         ],
         subs: vec![
             Sub { name: "tx_family", kind: Kind::Tape { max_len: 5000, quick: 60_000, thorough: 1_200_000, f: tx_family } },
